@@ -98,6 +98,12 @@ class Gen:
                 if loose:
                     rng.choice(funcs)["blocks"].append(
                         rng.choice(loose)["id"])
+        if self.knobs.get("shared_blocks") and len(funcs) >= 2 and \
+                rng.random() < 0.35:
+            # a block that belongs to two functions (a shared tail); only
+            # for checks that do not attribute code to functions
+            a, b = rng.sample(funcs, 2)
+            a["blocks"].append(rng.choice(b["blocks"]))
         case["funcs"] = funcs
         fn_of = {b: f["name"] for f in funcs for b in f["blocks"]}
         # --- data sections
@@ -171,8 +177,15 @@ class Gen:
         case["secs"].append({"name": ".text", "exec": True,
                              "ivs": self.split_ivs(blocks)})
         for name, dblocks in data_secs:
-            case["secs"].append({"name": name, "exec": False,
-                                 "ivs": self.split_ivs(dblocks)})
+            ivs = self.split_ivs(dblocks)
+            if rng.random() < 0.15:
+                # .bss-like: the last bytes of the section's last interval
+                # are not initialised (zeros in the listing)
+                n = rng.choice([1, 2, 4, 8])
+                ivs[-1]["blocks"][-1]["items"].append(
+                    {"k": "bytes", "hex": "00" * n})
+                ivs[-1]["uninit"] = n
+            case["secs"].append({"name": name, "exec": False, "ivs": ivs})
         if code_blocks and rng.random() < 0.5:
             case["entry"] = rng.choice(code_blocks)["id"]
         if fmt == "pe" and code_blocks and rng.random() < 0.5:
